@@ -515,6 +515,12 @@ class ExprMixin:
 
     def getattr_(self, st, obj, attr, node=None, default=MISSING, raw=False):
         """Full Python attribute lookup. raw=True: object.__getattribute__ semantics (no __getattr__ hook)."""
+        if isinstance(obj, SRef) and isinstance(attr, str) and attr == "__dict__":
+            return [(st, ObjDict(obj))]
+        if isinstance(obj, ObjDict):
+            if attr == "get":
+                return [(st, BoundMethod(("objdict", "get"), obj))]
+            raise Unsupported(f"__dict__.{attr}", node)
         if isinstance(obj, SRef):
             return self.getattr_ref(st, obj, attr, node, default, raw)
         if isinstance(obj, RecRepeated):
